@@ -131,6 +131,8 @@ struct Expect {
     /// finished before the root finished (happens-before through channels / joins)
     before_root: bool,
     root: String,
+    /// the trace was cancelled (cancelable configuration): nothing of it may be delivered
+    forbidden: bool,
 }
 
 static EXPECT: Mutex<Vec<Expect>> = Mutex::new(Vec::new());
@@ -171,10 +173,45 @@ fn job(j: usize, kind: usize, _cancelable: bool, seed: u64) {
                 }
             });
             h.join().unwrap();
-            expect(Expect { name: format!("j{}-l0", j), trace: tid, parent: Ok(rn.clone()), before_root: true, root: rn.clone() });
-            expect(Expect { name: format!("j{}-l1", j), trace: tid, parent: Ok(format!("j{}-l0", j)), before_root: true, root: rn.clone() });
-            expect(Expect { name: format!("j{}-c0", j), trace: tid, parent: Ok(rn.clone()), before_root: true, root: rn.clone() });
-            expect(Expect { name: rn.clone(), trace: tid, parent: Err(remote), before_root: true, root: rn.clone() });
+            expect(Expect { name: format!("j{}-l0", j), trace: tid, parent: Ok(rn.clone()), before_root: true, root: rn.clone(), forbidden: false });
+            expect(Expect { name: format!("j{}-l1", j), trace: tid, parent: Ok(format!("j{}-l0", j)), before_root: true, root: rn.clone(), forbidden: false });
+            expect(Expect { name: format!("j{}-c0", j), trace: tid, parent: Ok(rn.clone()), before_root: true, root: rn.clone(), forbidden: false });
+            expect(Expect { name: rn.clone(), trace: tid, parent: Err(remote), before_root: true, root: rn.clone(), forbidden: false });
+        }
+        // cancelable only: children on fresh threads, cancel() here, the root finishes on yet
+        // another fresh thread; nothing of the trace may ever be delivered
+        3 => {
+            let root = Span::root(rn.clone(), SpanContext::new(TraceId(tid), SpanId(remote)));
+            let root = Arc::new(Mutex::new(Some(root)));
+            let n = 1 + rng.below(2);
+            let mut hs = vec![];
+            for k in 0..n {
+                let root = root.clone();
+                let nm = format!("j{}-c{}", j, k);
+                hs.push(std::thread::spawn(move || {
+                    let c = {
+                        let g = root.lock().unwrap();
+                        Span::enter_with_parent(nm, g.as_ref().unwrap())
+                    };
+                    drop(c);
+                }));
+            }
+            let early = rng.chance(1, 2);
+            if early {
+                root.lock().unwrap().as_ref().unwrap().cancel();
+            }
+            for h in hs {
+                h.join().unwrap();
+            }
+            if !early {
+                root.lock().unwrap().as_ref().unwrap().cancel();
+            }
+            let r = root.lock().unwrap().take().unwrap();
+            std::thread::spawn(move || drop(r)).join().unwrap();
+            for k in 0..n {
+                expect(Expect { name: format!("j{}-c{}", j, k), trace: tid, parent: Ok(rn.clone()), before_root: true, root: rn.clone(), forbidden: true });
+            }
+            expect(Expect { name: rn.clone(), trace: tid, parent: Err(remote), before_root: true, root: rn.clone(), forbidden: true });
         }
         // root on this thread; children finish as the FIRST tracing operation of fresh threads
         // that exit at once; then the root finishes here (or on yet another fresh thread)
@@ -198,7 +235,7 @@ fn job(j: usize, kind: usize, _cancelable: bool, seed: u64) {
                 h.join().unwrap();
             }
             for k in 0..n {
-                expect(Expect { name: format!("j{}-c{}", j, k), trace: tid, parent: Ok(rn.clone()), before_root: true, root: rn.clone() });
+                expect(Expect { name: format!("j{}-c{}", j, k), trace: tid, parent: Ok(rn.clone()), before_root: true, root: rn.clone(), forbidden: false });
             }
             let r = root.lock().unwrap().take().unwrap();
             if kind == 2 {
@@ -206,7 +243,7 @@ fn job(j: usize, kind: usize, _cancelable: bool, seed: u64) {
             } else {
                 drop(r);
             }
-            expect(Expect { name: rn.clone(), trace: tid, parent: Err(remote), before_root: true, root: rn.clone() });
+            expect(Expect { name: rn.clone(), trace: tid, parent: Err(remote), before_root: true, root: rn.clone(), forbidden: false });
         }
     }
     JOBS_DONE.fetch_add(1, Ordering::SeqCst);
@@ -279,7 +316,7 @@ fn main() {
                 if j >= jobs || t0.elapsed().as_secs_f64() > time_limit {
                     break;
                 }
-                job(j, (j + w) % 3, cancelable, seed);
+                job(j, if cancelable { (j + w) % 4 } else { (j + w) % 3 }, cancelable, seed);
             }
             let _ = done_tx.send(());
         }));
@@ -331,12 +368,20 @@ fn main() {
     }
     let full = FULL_PUSHES.load(Ordering::SeqCst);
     let mut missing = 0usize;
+    let mut seen_cancelled = false;
     let mut dups = 0usize;
     let mut checked = 0usize;
     let names: HashSet<&str> = exp.iter().map(|e| e.name.as_str()).collect();
     for e in &exp {
         let got = seen.get(&e.name).map(|v| v.as_slice()).unwrap_or(&[]);
         checked += 1;
+        if e.forbidden {
+            if !got.is_empty() {
+                seen_cancelled = true;
+                viol("cancelled-delivered", format!("{:?} belongs to a cancelled trace but was delivered {} time(s)", e.name, got.len()));
+            }
+            continue;
+        }
         if got.is_empty() {
             missing += 1;
             viol("missing-record", format!("{:?} (trace {:032x}) finished but was never delivered ({} cycles waited, no flush)", e.name, e.trace, waited_cycles));
@@ -390,6 +435,12 @@ fn main() {
             }
         }
         for e in &exp {
+            if e.forbidden {
+                if count.get(e.name.as_str()).copied().unwrap_or(0) > 0 && !seen_cancelled {
+                    viol("cancelled-delivered", format!("{:?} belongs to a cancelled trace but was delivered by a later flush()", e.name));
+                }
+                continue;
+            }
             if count.get(e.name.as_str()).copied().unwrap_or(0) > 1 && dups == 0 {
                 viol("duplicate-delivery", format!("{:?} delivered again by a later flush()", e.name));
             }
